@@ -4,7 +4,3 @@ NOTES = ("Every check is `python -m vp.runner <ID>`: fixed regression cases, the
          "sub-domain is finite; evidence is rewritten on every run. Exit 2 = harness error. "
          "known_findings.json lists fixed and pinned findings.")
 
-add("C13", "property-based differential testing against a reference transliteration of rpmvercmp.c + exhaustive bounded-alphabet enumeration (pairs, bit-set triples)",
-    "All ordered pairs (and, in the quick alphabet, all triples) of strings up to length 3 (quick) / 4 (thorough) over a 10-symbol alphabet are compared exhaustively with an independent transliteration of rpmvercmp.c and checked for reflexivity, antisymmetry and transitivity; beyond the bounded alphabet, random segment-structured strings, single-segment mutation pairs and epoch/version/release triples through InstalledRpm's six operators and InstalledRpms.newest/oldest are sampled. Exploration is the right level: the input domain is unbounded strings.",
-    "Trusted: the harness transliteration of rpmvercmp.c (self-tested on the RPM table rows in the repository's test file before every run); no rpm binary is available offline. Agreement is exhaustive on the bounded alphabet only, sampled beyond it.",
-    "DESIGN.md section 3, C13")
